@@ -44,6 +44,13 @@ type Server struct {
 	AfterRefusal []byte
 	// OnContinuation is called when "+" is sent (for ordering oracles).
 	Events []string
+	// Outstanding is true from the moment a synchronising literal header has been read until the
+	// server has written its answer ("+" or a refusal).
+	Outstanding bool
+	// RefusedAt: len(Raw) at the moment each refusal was written.
+	RefusedAt []int
+	// OnAnswer is called right before the answer to a synchronising literal header is written.
+	OnAnswer func(tag string, granted bool)
 }
 
 func (s *Server) fill() bool {
@@ -148,17 +155,27 @@ func (s *Server) Run() {
 			}
 			full += line
 			if !nonSync {
+				s.Outstanding = true
 				ans := ""
 				if s.AcceptLiteral != nil {
 					ans = s.AcceptLiteral(c.Tag, n, len(c.Literals))
 				}
 				if ans != "" {
 					s.Events = append(s.Events, "refuse "+c.Tag)
+					s.RefusedAt = append(s.RefusedAt, len(s.Raw))
+					s.Outstanding = false
+					if s.OnAnswer != nil {
+						s.OnAnswer(c.Tag, false)
+					}
 					s.send(ans)
 					refused = true
 					break
 				}
 				s.Events = append(s.Events, "continue "+c.Tag)
+				s.Outstanding = false
+				if s.OnAnswer != nil {
+					s.OnAnswer(c.Tag, true)
+				}
 				s.send("+ go ahead\r\n")
 			}
 			p, ok := s.readN(n)
